@@ -1,12 +1,12 @@
 package props
 
 import (
-	"math"
-	"unicode/utf8"
 	"fmt"
+	"math"
 	"sort"
 	"strings"
 	"testing"
+	"unicode/utf8"
 
 	"pgregory.net/rapid"
 
